@@ -45,7 +45,10 @@ func processListFile(destName string, listPath string) {
 	}))
 	frt.Pipe(frt.Pipe(frt.Pipe(frt.Pipe(frt.Pipe(frt.Pipe(content, (func(_r0 string) []string { return strings.Split("\n", _r0) })), (func(_r0 []string) []string { return slice.Filter(strings.IsNotEmpty, _r0) })), (func(_r0 []string) []string {
 		return slice.Map((func(_r0 string) string { return convOne(dir, _r0) }), _r0)
-	})), (func(_r0 []string) string { return strings.Concat("\n", _r0) })), (func(_r0 string) string { return strings.AppendHead("## Folang Sample \n\n\n", _r0) })), (func(_r0 string) bool { return sys.WriteFile(filepath.Join(dir, destName), _r0) }))
+	})), (func(_r0 []string) string { return strings.Concat("\n", _r0) })), (func(_r0 string) string { return strings.AppendHead("## Folang Sample \n\n\n", _r0) })), (func() func(_r0 string) bool {
+		_p0 := filepath.Join(dir, destName)
+		return func(_r0 string) bool { return sys.WriteFile(_p0, _r0) }
+	})())
 
 }
 
